@@ -3,7 +3,8 @@
    (Update/UpdateFacts.v, Update/UpdateProofs.v, Update/UpdateThms.v), all about the model that the
    correspondence run executes (Update/UpdateDefs.v: step / send_client / ...). *)
 From LV Require Import Region.RegionDefs Region.RegionProofs Update.UpdateDefs Update.UpdateFacts
-     Update.UpdateProofs0 Update.UpdateProofs Update.UpdateThms Update.NewFB Update.Slices.
+     Update.UpdateProofs0 Update.UpdateProofs Update.UpdateThms Update.NewFB Update.Slices Update.Trans
+     Update.StateLevel Update.Audit02.
 Local Open Scope Z_scope.
 
 (* ---------------------------------------------------------------- the invariant
@@ -50,15 +51,22 @@ Theorem C02_inv_executable : forall st c,
 Proof. exact inv_client_b_complete. Qed.
 
 (* ---------------------------------------------------------------- delivery *)
-Theorem C02_send_delivers : forall st c c' m,
-  Inv st -> In c (sClients st) -> sSliceH st <= 0 ->
+(* SCOPE of every statement about a client's PICTURE (send_delivers, idle_converged, slices_converge):
+   clients for which the server paints no cursor into the pixels - [NoSoftCursor st c]: the client announced
+   cursor-shape support or the screen has no cursor.  For the others rfbShowCursor draws the cursor into the
+   framebuffer before encoding (C15's subject); the model paints nothing, and the correspondence run masks
+   exactly those pictures, so the claim would be neither true of the C code nor tested.  [Inv] itself is a
+   statement about the model's pictures (without the painted cursor) for all clients.
+   `_noslice`: progressiveSliceHeight <= 0 (with slicing: C02_slices_converge). *)
+Theorem C02_send_delivers_noslice : forall st c c' m,
+  Inv st -> In c (sClients st) -> NoSoftCursor st c -> sSliceH st <= 0 ->
   cUseNewFB c && cNewFBPending c = false ->
   send_client st c = Some (c', m) ->
   forall x y, inS (sW st) (sH st) x y -> rgn_mem (cR c) x y = true ->
     pic_get (cPic c') x y = fb_for st c x y.
-Proof. exact send_delivers. Qed.
+Proof. exact send_delivers_nocursor. Qed.
 
-Theorem C02_send_clears_requested : forall st c c' m,
+Theorem C02_send_clears_requested_noslice : forall st c c' m,
   Inv st -> In c (sClients st) -> sSliceH st <= 0 ->
   cUseNewFB c && cNewFBPending c = false ->
   send_client st c = Some (c', m) ->
@@ -68,10 +76,19 @@ Proof. exact send_clears_requested. Qed.
 
 (* ---------------------------------------------------------------- nothing more to send => equal *)
 Theorem C02_idle_converged : forall st c,
-  Inv st -> In c (sClients st) -> pending st c = false ->
+  Inv st -> In c (sClients st) -> NoSoftCursor st c -> pending st c = false ->
   cPW c = sW st /\ cPH c = sH st /\
   forall x y, inS (sW st) (sH st) x y -> pic_get (cPic c) x y = fb_for st c x y.
-Proof. exact idle_converged. Qed.
+Proof. exact idle_converged_nocursor. Qed.
+
+(* ... in terms of the CURRENT server format: [fb_for] goes through the translation selected for the client;
+   it is the one for the current server format in every reachable state ([TransOK], kept by every operation:
+   C16_translation_current) *)
+Theorem C02_idle_converged_current_format : forall st c,
+  Inv st -> TransOK st -> In c (sClients st) -> NoSoftCursor st c -> pending st c = false ->
+  forall x y, inS (sW st) (sH st) x y ->
+    pic_get (cPic c) x y = translate (sBpp st) (tTo (cBpp c)) (fbf st x y).
+Proof. exact idle_converged_current_nocursor. Qed.
 
 (* ---------------------------------------------------------------- CopyRect order *)
 Theorem C02_copy_order_safe : forall r dx dy f x y,
@@ -91,7 +108,7 @@ Theorem C02_docopy_region_simultaneous : forall f K dx dy x y,
 Proof. exact docopy_region_simul. Qed.
 
 (* ---------------------------------------------------------------- non-incremental requests *)
-Theorem C02_send_covers_modified_requested : forall st c c' n rects,
+Theorem C02_send_covers_modified_requested_noslice : forall st c c' n rects,
   Inv st -> In c (sClients st) -> sSliceH st <= 0 ->
   cUseNewFB c && cNewFBPending c = false ->
   send_client st c = Some (c', Some (n, rects)) ->
@@ -99,7 +116,7 @@ Theorem C02_send_covers_modified_requested : forall st c c' n rects,
     existsb (wraw_has x y) rects = true /\ existsb (wcopy_has x y) rects = false.
 Proof. exact send_covers. Qed.
 
-Theorem C02_nonincremental_full : forall st c c' n rects x y w h x0 y0,
+Theorem C02_nonincremental_full_noslice : forall st c c' n rects x y w h x0 y0,
   Inv st -> In c (sClients st) -> sSliceH st <= 0 ->
   req_ok (sW st) (sH st) x y w h -> w < 65536 -> h < 65536 ->
   let c1 := request_client (sW st) (sH st) false x y w h c in
@@ -109,6 +126,26 @@ Theorem C02_nonincremental_full : forall st c c' n rects x y w h x0 y0,
   existsb (wraw_has x0 y0) rects = true /\ existsb (wcopy_has x0 y0) rects = false.
 Proof. exact nonincremental_full. Qed.
 
+(* the two theorems above are conditional on a message being sent; it IS sent as soon as one requested pixel is
+   modified (existential form) ... *)
+Theorem C02_update_emitted_noslice : forall st c x y,
+  Inv st -> In c (sClients st) -> sSliceH st <= 0 ->
+  cUseNewFB c && cNewFBPending c = false -> scaled_guard c = false ->
+  rgn_mem (cM c) x y = true -> rgn_mem (cR c) x y = true ->
+  exists c' n rects, send_client st c = Some (c', Some (n, rects)).
+Proof. exact send_emits. Qed.
+
+(* ... and when the client's size message is pending (every ExtendedDesktopSize client after a non-incremental
+   request, every resize-capable client after rfbNewFramebuffer) the first send is the size message and the
+   second one carries the pixels: two-send form *)
+Theorem C02_update_emitted_after_size_noslice : forall st c x y,
+  Inv st -> In c (sClients st) -> sSliceH st <= 0 -> cScaled c = None ->
+  cUseNewFB c = true -> cNewFBPending c = true ->
+  rgn_mem (cM c) x y = true -> rgn_mem (cR c) x y = true ->
+  exists c1 m1 c2 n rects,
+    send_client st c = Some (c1, Some m1) /\ send_client st c1 = Some (c2, Some (n, rects)).
+Proof. exact send_emits_after_size. Qed.
+
 (* ---------------------------------------------------------------- silence when up to date *)
 Theorem C02_idle_incremental_silent : forall st c x y w h,
   pending st c = false -> cScaled c = None ->
@@ -117,6 +154,30 @@ Theorem C02_idle_incremental_silent : forall st c x y w h,
   exists c', send_client st c1 = Some (c', None).
 Proof. exact idle_incremental_silent. Qed.
 
+(* the requested area is clean (nothing of it is modified or waits for a copy) while OTHER areas are dirty, no
+   cursor business pending: nothing is sent, the picture and the dirty areas are left alone *)
+Theorem C02_clean_request_silent : forall st c,
+  Inv st -> In c (sClients st) ->
+  cUseNewFB c && cNewFBPending c = false -> scaled_guard c = false ->
+  (forall x y, rgn_mem (cR c) x y = true -> rgn_mem (cM c) x y = false /\ rgn_mem (cC c) x y = false) ->
+  cShape c && cCurChanged c && cReady c = false ->
+  (cShape c = true \/ (cCurX c = sCurX st /\ cCurY c = sCurY st)) ->
+  exists c', send_client st c = Some (c', None) /\ cPic c' = cPic c /\ cR c' = cR c /\
+             forall x y, rgn_mem (cM c') x y = rgn_mem (cM c) x y.
+Proof. exact clean_request_silent. Qed.
+
+(* CopyRect only while advertised (C03-F25, fixed 690d81d): a SetEncodings without CopyRect leaves no copy
+   pending, and a client without a pending copy is never sent a CopyRect *)
+Theorem C02_setenc_without_copyrect_drops_copy : forall st shape newfb ext c,
+  rgn_is_empty (cC (setenc_client st false shape newfb ext c)) = true.
+Proof. exact setenc_without_copyrect_no_copy. Qed.
+
+Theorem C02_no_pending_copy_no_copyrect : forall st c c' n rects,
+  Inv st -> In c (sClients st) ->
+  rgn_is_empty (cC c) = true -> send_client st c = Some (c', Some (n, rects)) ->
+  existsb is_wcopy rects = false.
+Proof. exact no_copy_region_no_copyrect. Qed.
+
 (* ---------------------------------------------------------------- progressive slicing *)
 (* with progressiveSliceHeight > 0 a bounded number of rounds - one round = an incremental request
    for the whole screen followed by rfbSendFramebufferUpdate, nothing else in between, no copy
@@ -124,12 +185,12 @@ Proof. exact idle_incremental_silent. Qed.
    at most  floor(H / slice) + 2  (>= ceil(H/slice) + 1)  rounds, wherever the sweep currently is
    (progressiveSliceY arbitrary >= 0).  The framebuffer height fits a C int. *)
 Theorem C02_slices_converge : forall st c,
-  Inv st -> In c (sClients st) -> sH st <= INT_MAX -> 0 < sSliceH st ->
+  Inv st -> In c (sClients st) -> NoSoftCursor st c -> sH st <= INT_MAX -> 0 < sSliceH st ->
   no_pix (cC c) -> cUseNewFB c && cNewFBPending c = false -> cScaled c = None -> 0 <= cSliceY c ->
   exists c', slice_rounds st c (Z.to_nat (sH st / sSliceH st + 2)) = Some c' /\
              no_pix (cM c') /\
              forall x y, inS (sW st) (sH st) x y -> pic_get (cPic c') x y = fb_for st c x y.
-Proof. exact slices_converge_inv. Qed.
+Proof. exact slices_converge_nocursor. Qed.
 
 (* ---------------------------------------------------------------- the deferral timer *)
 (* deferring never loses an update: whatever deferUpdateTime and the clock (gettimeofday) are - also
@@ -157,17 +218,23 @@ Theorem C02_deferral_expired_sends : forall st c,
 Proof. exact tick_expired_sends. Qed.
 
 (* ---------------------------------------------------------------- SetPixelFormat mid-session *)
-Theorem C02_setpixelformat_resync : forall st c bpp,
+(* PARTIAL: the modelled operation is SetPixelFormat (to one of the three server-style formats) FUSED with the
+   non-incremental request for the whole screen that a conforming client sends next; a bare SetPixelFormat
+   marks nothing in the C code and would leave the old-format pixels in the client's picture *)
+Theorem C02_setpixelformat_with_full_rerequest_partial : forall st c bpp,
   Inv st -> In c (sClients st) ->
   let c' := setpf_client st bpp c in
   InvC (sW st) (sH st) (fb_for st c') c' /\ cBpp c' = mkX (sBpp st) bpp.
 Proof. exact setpixelformat_resync. Qed.
 
 (* ---------------------------------------------------------------- other encodings *)
-(* convergence only needs "pixel rectangles deliver fb": with any encoding whose decoded rectangle
-   carries the framebuffer content (C01's theorem for each lossless encoding) the sender behaves
-   exactly like the Raw model, so all theorems of this file hold for it *)
-Theorem C02_any_lossless_encoding : forall deliver st c,
+(* RAW ONLY: the model's sender is parametric in what a pixel rectangle delivers; this says that any [deliver]
+   that equals the Raw delivery pointwise gives the same sender - it is not instantiated with a decode/encode
+   theorem of any other encoding (C01's subject), and the per-encoding rectangle counts and the coalescing
+   exemptions of rfbSendFramebufferUpdate are not modelled.  Other encodings are covered BY TEST only: the
+   "enc" class of the correspondence run (real LibVNCClient decoders for RRE, CoRRE, Hextile, Zlib, ZlibHex,
+   Tight, Ultra, TRLE, ZRLE) compares regions, flags and the convergence verdict. *)
+Theorem C02_any_lossless_encoding_raw_only : forall deliver st c,
   delivers_fb deliver -> send_client_gen (client_apply_with deliver) st c = send_client st c.
 Proof. exact any_lossless_encoding. Qed.
 
